@@ -273,6 +273,61 @@ class CommitLast:
                 break
 
 
+def rule_X3m(ctx, fn_names):
+    """strong exception guarantee for the object itself, where the documentation promises it."""
+    res = RuleResult('X3m', 'documented strong guarantee: in the functions documented as leaving the object unchanged when '
+                            'they throw, no may-throw point follows a write to a data member')
+    cl = get_commitlast(ctx)
+    TH = get_throws(ctx)
+    S = ctx.summaries
+    n = 0
+    for f in scoped_fns(ctx, None):
+        if f.q not in fn_names or not f.cfg:
+            continue
+        n += 1
+        fl = ctx.flow(f)
+        ev = cl._events_by_node(f)
+        state_in = {f.cfg['entry']: {}}
+        work = [f.cfg['entry']]
+        viol = {}
+        guard = 0
+        while work:
+            guard += 1
+            if guard > 20000:
+                raise AnalysisBroken('X3m: dataflow did not converge in ' + f.q)
+            b = work.pop()
+            st = dict(state_in[b])
+            for kind, e in fl._elts[b]:
+                if kind != 'stmt':
+                    continue
+                if st and TH.may_throw_node(f, e):
+                    for m, w in st.items():
+                        viol.setdefault(m, (w, e))
+                for kd, path, extra in ev.get(e, []):
+                    if path is None or path.root != ('this',) or not path.steps:
+                        continue
+                    if kd in ('store', 'mcall') or (kd == 'argout' and (
+                            extra[0].get('usr') not in ctx.prog.fns or S.writes_param(extra[0]['usr'], extra[1]))):
+                        st.setdefault(path.steps[0][2], e)
+            for s_ in fl._succs(b):
+                old = state_in.get(s_)
+                new = dict(old or {})
+                ch = old is None
+                for k_, v_ in st.items():
+                    if k_ not in new:
+                        new[k_] = v_
+                        ch = True
+                if ch:
+                    state_in[s_] = new
+                    work.append(s_)
+        res.ob(not viol, {'fn': f.q, 'at': f.loc(), 'members_written_before_a_throw': sorted(viol)})
+        for m, (w, t) in sorted(viol.items()):
+            res.fail(f.q, m, f.loc(t), '%s writes member %s at %s and may throw afterwards at %s although it is documented '
+                     'to leave the object unchanged when it throws' % (f.q, m, f.loc(w), f.loc(t)))
+    res.floor('functions with a documented strong guarantee', n, len(fn_names))
+    return res
+
+
 def get_commitlast(ctx):
     if not hasattr(ctx, '_cl'):
         ctx._cl = CommitLast(ctx)
@@ -771,9 +826,11 @@ def rule_X5(ctx):
             args = list(base)
             for bi, bv in zip(bools, cb):
                 args[bi] = bv
-            outs = ip.explore(f, args)
+            outs = ip.explore(f, args, stop_on_ok=True)
             allouts |= outs
             anyok = anyok or ('ok' in outs)
+            if anyok:
+                break
         if not anyok:
             raise AnalysisBroken('X5: valid witness arguments do not construct %s (%s): %s'
                                  % (f.q, f.loc(), sorted(allouts)))
